@@ -21,6 +21,14 @@ EXTRA = [
     _c("EMA3r2_", "EMA", period=3, round_value=2),
     _c("SMA3r0_", "SMA", period=3, round_value=0),
     _c("RMA3r8_", "RMA", period=3, round_value=8),
+    _c("SMA2r8_", "SMA", period=2, round_value=8),
+    _c("EMA3r8_", "EMA", period=3, round_value=8),
+    _c("WMA2r6_", "WMA", period=2, round_value=6),
+    _c("VWMA2r8_", "VWMA", period=2, round_value=8),
+    _c("DON3r8_", "donchian", period=3, round_value=8),
+    _c("BBANDS2r8_", "BBANDS", period=2, round_value=8),
+    _c("ROC2r8_", "ROC", period=2, round_value=8),
+    _c("VWAPr8_", "VWAP", round_value=8),
     _c("WMA4", "WMA", period=4),
     _c("RSI3r8_", "RSI", period=3, round_value=8),
     _c("MACD232r2_", "MACD", fast_period=2, slow_period=3, signal_period=2, round_value=2),
@@ -217,14 +225,18 @@ def _nonempty(g):
     return g is not None and g is not False and g != 0
 
 
+FINE = {"tick": 0.123457, "offset": 0.000013, "base": A._BASES[0], "rot": 0}  # prices with 6 significant decimals
+
+
 def explore(item):
-    prop, tier, label, first, sigma, n = item
+    prop, tier, label, first, sigma, n = item[:6]
+    fine = len(item) > 6 and item[6]
     cfg = BY_LABEL[label]
     rep = Report()
     hz = 4.0 if tier == "quick" else 10.0
     for tail in A.words(sigma, n - 1):
         word = first + tail
-        raw = raw_stream(word)
+        raw = raw_stream(word, var=FINE) if fine else raw_stream(word)
         for pl in placements(cfg, tier):
             one(prop, rep, cfg, word, raw, pl, hz)
         rep.sample({"cfg": label, "word": word, "raw": raw, "placements": placements(cfg, tier)})
@@ -274,6 +286,8 @@ def main(prop, tier):
             items.append((prop, tier, cfg["label"], f, sigma, n))
             # longer words over a smaller alphabet: deeper recurrences, flat runs
             items.append((prop, tier, cfg["label"], f, "UDF" if f in "UDF" else "JVF"[:3], n + 3 if tier == "quick" else n + 4))
+            # the same words on a price scale with more decimals than any rounding setting keeps
+            items.append((prop, tier, cfg["label"], f, sigma[:4] if tier == "quick" else sigma, n, True))
     reps = pmap(explore, items)
     if prop == "C04":
         reps.append(chain_check(prop, tier))
@@ -287,7 +301,7 @@ def main(prop, tier):
             "interval-valued reference written from the definitions; non-trivial = distinct (config, placement, word) with at least one "
             "comparison against a tight interval (width <= 0.011) or an exact discrete value")
     return finish(prop, tier, rep, t0, rule=rule,
-                  bounds={"sigma": sigma, "n": n, "configs": [c["label"] for c in cfgs], "variant": A.variant()},
+                  bounds={"sigma": sigma, "n": n, "configs": [c["label"] for c in cfgs], "variant": A.variant(), "fine_price_scale": FINE["tick"]},
                   replay_confirm=replay,
                   assumptions=["helper series are stored at 4 decimals, top-level readings at round_value",
                                "undefined quotients and undecidable comparisons are skipped (counted in skipped_undefined)"])
